@@ -188,6 +188,18 @@ fn case2<T: Elem>(case: u64, args: &Args, ev: &mut Ev) {
             ..Default::default()
         },
     );
+    let mut spec = spec;
+    // sometimes x and y are two views of one table (same first element, strides 1 and 2)
+    let aliased = case % 7 == 3 && T::MANT == 52;
+    if aliased {
+        let (nx, ny) = (spec.data.shape()[0], spec.data.shape()[1]);
+        let table = vh::cases::gen_alias_table::<T>(&mut rng, nx, ny, false);
+        if spec.data.ndim() != 3 {
+            spec.dynamic = true;
+        }
+        spec = spec.aliased_axes(Array1::from(table), nx, ny);
+        ev.add("aliased_axes_cases", 1);
+    }
     let x = spec.axis_x();
     let y = spec.axis_y();
     let (nx, ny) = (x.len(), y.len());
@@ -208,6 +220,19 @@ fn case2<T: Elem>(case: u64, args: &Args, ev: &mut Ev) {
     qs.push((x[rng.below(nx)], y[rng.below(ny)]));
     qs.push((x[rng.below(nx)], rand_in(&mut rng, y[0], y[ny - 1])));
     qs.push((x[nx - 1], y[ny - 1]));
+    if aliased {
+        // queries exactly on the diagonal qx == qy, inside both ranges
+        let hi = if x[nx - 1] < y[ny - 1] { x[nx - 1] } else { y[ny - 1] };
+        for _ in 0..8 {
+            let q = rand_in(&mut rng, x[0], hi);
+            qs.push((q, q));
+        }
+        for k in 0..nx.min(4) {
+            if x[k] <= hi {
+                qs.push((x[k], x[k]));
+            }
+        }
+    }
     if extrapolate {
         let ox = queries_outside(&mut rng, &x, 50.0, 3);
         let oy = queries_outside(&mut rng, &y, 50.0, 3);
@@ -250,6 +275,7 @@ fn case2<T: Elem>(case: u64, args: &Args, ev: &mut Ev) {
         spec_b.data = ArrayD::from_shape_vec(IxDyn(spec.data.shape()), flat).unwrap();
         spec_b.x = Some(Array1::from(x2));
         spec_b.y = Some(Array1::from(y2));
+        spec_b.alias_table = None;
         let b = build2(&spec_b, |r| match r {
             Ok(i) => i.one(qx, qy),
             Err(o) => Outcome::Err("build".into(), o.detail()),
